@@ -979,6 +979,15 @@ class Exec:
             elem = lambda ex_, st_, i: objects.symlist_get(ex_, st_, src, i)
         elif isinstance(src, SeqV):
             n, elem = src.length, src.getter
+        elif isinstance(src, ARef):
+            # iteration over an array: its elements (1-D) or its rows (2-D)
+            d0 = self.arr(st, src)
+            n = d0.shape[0]
+            if d0.rank == 1:
+                elem = lambda ex_, st_, i, _s=src: ex_.sel1(ex_.arr(st_, _s), i)
+            else:
+                elem = lambda ex_, st_, i, _s=src: ex_.alloc_arr(st_, (ex_.arr(st_, _s).shape[1],), ex_.lam1(lambda c, _d=ex_.arr(st_, _s): ex_.sel2(_d, i, c)),
+                                                                  ex_.arr(st_, _s).elem, ex_.arr(st_, _s).owner, view_of=_s.sid)
         elif isinstance(src, (LRef, Tup, tuple)):
             # concrete sequence: evaluated element by element, like the loop it abbreviates
             items = list(st.heap[src.sid].items) if isinstance(src, LRef) else list(src)
